@@ -40,7 +40,7 @@ def extra(chk):
 
 
 def run(tier):
-    return L.run_lane("C13", tier, MC[tier], PROFILES[tier], RULE, scripts=SCRIPTS[tier], selftests=[("snapshot", L.corrupt_snapshot, "inv:NoLeak")], extra=extra)
+    return L.run_lane("C13", tier, MC[tier], PROFILES[tier], RULE, scripts=SCRIPTS[tier], selftests=[("snapshot", L.corrupt_snapshot, ("inv:NoLeak", "quiet:more"))], extra=extra)
 
 
 def replay(path):
